@@ -128,7 +128,7 @@ class DeclarativeCircuit(IDeclarativeCircuit):
         """
         WARNING: Applies modifiers inplace.
         Iterates over composite operations and flattens them.
-        If any operation is still pointing to a composite-operation, remove relation link and add to circuit.
+        Operations pointing to a composite-operation are redirected to the (decomposed) operations of that composite-operation.
         :return: Modified self.
         """
         result: DeclarativeCircuit = DeclarativeCircuit(
